@@ -62,6 +62,15 @@ TARGETS = [
         ("State", "deep_enough_and_saw_node_forget", "C15", "C15_fn_deep_enough"),
         ("State", "is_done", "C15", "C15_fn_is_done"),
     ]),
+    # C19 (b1819): the frame length check every reader entry point of msgs.rs starts with (private free function,
+    # called in the harness through the public `from_reader`)
+    dict(area="Msgs", rel="vls-protocol/src/msgs.rs", consts=[], externals={}, fns=[
+        ("", "check_message_length", "C19", "C19_fn_check_message_length"),
+    ]),
+    # C18 (b1819): the big-endian read LdkKeyDerive::channel_keys applies to keys_id[0..8] (BIP32 child index)
+    dict(area="ByteUtils", rel="vls-core/src/util/byte_utils.rs", consts=[], externals={}, fns=[
+        ("", "slice_to_be64", "C18", "C18_fn_slice_to_be64"),
+    ]),
 ]
 
 
